@@ -59,7 +59,10 @@ CONFIG = {
 }
 
 
-def _abort_at(failure, prefixes):
+def _abort_at(failure, prefixes, fn=None, not_fn=None):
+    """the child process of that very site died of a stack overflow; `fn` (a function name of the
+    generated table) must be among the data-recursive functions the model lists for the site (`rec=`),
+    `not_fn` must not"""
     toks = failure["request"].split()
     if len(toks) != 4 or toks[0] != "run":
         return False
@@ -70,52 +73,60 @@ def _abort_at(failure, prefixes):
     # only the stack overflow of that very site: the child died (SIGSEGV/SIGABRT), nothing else
     if impl.get("outcome") != "abort" or impl.get("FAIL.stack_overflow") != site:
         return False
+    rec = kv(failure["model"]).get("rec", "").split(",")
+    if fn is not None and fn not in rec:
+        return False
+    if not_fn is not None and not_fn in rec:
+        return False
     return failure.get("field") in ("FAIL.stack_overflow", "outcome")
 
 
 @predicate
 def c16_iter_gspo(failure):
     """GspoMatchingIterator::next: `return self.next()` per skipped row"""
-    return _abort_at(failure, ["iter_gspo"])
+    # also what is left of `GRAPH ?g` once graph_rec is repaired: `graph` scans with the empty graph matcher
+    return (_abort_at(failure, ["iter_gspo"], fn="GspoMatchingIterator::next")
+            or _abort_at(failure, ["sparql_graph"], fn="GspoMatchingIterator::next", not_fn="exec::graph_rec"))
 
 
 @predicate
 def c16_iter_bcd(failure):
     """BcdMatchingIterator::next"""
-    return _abort_at(failure, ["iter_bcd"])
+    return _abort_at(failure, ["iter_bcd"], fn="BcdMatchingIterator::next")
 
 
 @predicate
 def c16_iter_cd(failure):
     """CdMatchingIterator::next"""
-    return _abort_at(failure, ["iter_cd"])
+    return _abort_at(failure, ["iter_cd"], fn="CdMatchingIterator::next")
 
 
 @predicate
 def c16_iter_spo(failure):
     """SpoMatchingIterator::next"""
-    return _abort_at(failure, ["iter_spo"])
+    return _abort_at(failure, ["iter_spo"], fn="SpoMatchingIterator::next")
 
 
 @predicate
 def c16_iter_bc(failure):
     """BcMatchingIterator::next"""
-    return _abort_at(failure, ["iter_bc"])
+    return _abort_at(failure, ["iter_bc"], fn="BcMatchingIterator::next")
 
 
 @predicate
 def c16_quoted_string(failure):
     """nt.rs quoted_string recurses per escaped character"""
-    return _abort_at(failure, ["nt_literal"])
+    return _abort_at(failure, ["nt_literal"], fn="nt::quoted_string")
 
 
 @predicate
 def c16_graph_rec(failure):
     """exec.rs graph_rec recurses per graph name"""
-    return _abort_at(failure, ["sparql_graph"])
+    return _abort_at(failure, ["sparql_graph"], fn="exec::graph_rec")
 
 
 @predicate
 def c16_jsonld_list(failure):
     """engine.rs mark_list_node / populate_list recurse per list cell"""
-    return _abort_at(failure, ["jsonld_list"])
+    return (_abort_at(failure, ["jsonld_list"], fn="engine::mark_list_node")
+            or _abort_at(failure, ["jsonld_list"], fn="engine::populate_list"))
